@@ -51,7 +51,7 @@ def finish_worker(ctx):
 
 def make_case(ctx, idx):
     r = case_rng(ctx.seed, ID, idx)
-    return {"ops": gen.Gen(r, gen.profile("c02", multi_member=0.15)).program(), "dest": r.choice(["str", "text", "bytes"])}
+    return {"ops": gen.Gen(r, gen.profile("c02", multi_member=0.15)).program(), "dest": r.choice(["str", "text", "bytes", "text_file_other_codec"])}
 
 
 def xml_char_ok(s):
@@ -115,6 +115,8 @@ def write(doc, force, dest):
         s = io.StringIO()
         doc.serialize(s, format="xml", force_types=force)
         return s.getvalue()
+    if dest == "text_file_other_codec":
+        return ("TEXT-STREAM", common.text_file_roundtrip(doc, "xml", force_types=force)[0])
     b = io.BytesIO()
     doc.serialize(b, format="xml", force_types=force)
     return b.getvalue()
@@ -127,7 +129,11 @@ def roundtrip_problems(doc, force, dest):
     except Exception as e:
         return ["serialize raised %s: %s" % (type(e).__name__, str(e)[:200])], None
     try:
-        if isinstance(out, bytes):
+        if isinstance(out, tuple):
+            # written through a text stream: read through a text stream (what a caller does with a text file)
+            out = out[1]
+            d2 = pm.ProvDocument.deserialize(io.StringIO(out), format="xml")
+        elif isinstance(out, bytes):
             d2 = pm.ProvDocument.deserialize(io.BytesIO(out), format="xml")
         else:
             d2 = pm.ProvDocument.deserialize(content=out, format="xml")
